@@ -47,11 +47,22 @@ def store(I, st, fid, bi, t, lv, val, via):
        '<core::ptr::non_null::NonNull<T> as core::convert::From<&mut T>>::from', '<core::ptr::non_null::NonNull<T> as core::convert::From<&T>>::from',
        '<T as core::convert::Into<U>>::into', '<T as core::convert::From<T>>::from',
        'core::str::<impl str>::as_bytes', 'core::str::converts::from_utf8_unchecked', 'core::str::converts::from_utf8_unchecked_mut',
-       'core::str::<impl str>::as_bytes_mut', 'core::slice::<impl [T]>::as_ptr', 'core::slice::<impl [T]>::as_mut_ptr',
-       'core::str::<impl str>::as_ptr', 'core::str::<impl str>::as_mut_ptr',
+       'core::str::<impl str>::as_bytes_mut',
        'core::ptr::non_null::NonNull::<[T]>::as_mut_ptr', 'core::ptr::non_null::NonNull::<[T]>::as_non_null_ptr')
 def _ident(I, st, fid, bi, a, c, t):
     return a[0]
+
+
+@model('core::slice::<impl [T]>::as_ptr', 'core::slice::<impl [T]>::as_mut_ptr', 'core::str::<impl str>::as_ptr', 'core::str::<impl str>::as_mut_ptr')
+def _slice_as_ptr(I, st, fid, bi, a, c, t):
+    # the data pointer of a slice built in this function; a slice that is only known as a value keeps its own term
+    # (it stands for its data pointer wherever a pointer is expected)
+    v = a[0]
+    if v[0] == 'agg' and v[1] == 'slice':
+        p = field_of(v, 'ptr')
+        if p is not None:
+            return p
+    return v
 
 
 @model('<core::mem::manually_drop::ManuallyDrop<T> as core::ops::deref::DerefMut>::deref_mut', '<core::mem::manually_drop::ManuallyDrop<T> as core::ops::deref::Deref>::deref')
